@@ -1,6 +1,7 @@
 import Gossamer.Base.Proto
 import Gossamer.Lib.Blake2b
 import Gossamer.Lib.C08Spec
+import Gossamer.Lib.C08Host
 open Gossamer Gossamer.C08
 
 /- line:   `alpha|op;op;…`  (see harness/C08/c08_test.go for the op language)
@@ -271,7 +272,105 @@ def findTag (hdr : String) : Scan → List Op → String
     else if absI xi.1 != absS xs.1 then tsTag sc0 op xi.2 xs.2
     else findTag hdr { sc0 with m := xm.1, i := xi.1, s := xs.1 } r
 
+/-! ### host level: the same op language through the storage host functions -/
+
+def parseLim? (s : String) : Option (Option Nat) :=
+  if s == "none" then some none
+  else match parseNat? s with
+    | some n => if n < 4294967296 then some (some n) else none
+    | none => none
+
+def parseHOp (x y : UInt8) (sep : Bool) (s : String) : HOp :=
+  match words s with
+  | ["put", k, v] => match ofHex? k, ofHex? v with
+    | some k, some v => .put k v
+    | _, _ => .bad
+  | ["get", k] => match ofHex? k with | some k => .get k | none => .bad
+  | ["has", k] => match ofHex? k with | some k => .has k | none => .bad
+  | ["read", k, o, n] => match ofHex? k, parseNat? o, parseNat? n with
+    | some k, some o, some n => if n ≤ 8 then .read k o n else .bad
+    | _, _, _ => .bad
+  | ["del", k] => match ofHex? k with | some k => .del k | none => .bad
+  | ["clr", p] => match ofHex? p with | some p => .clr p | none => .bad
+  | ["clrl", p, n] => match ofHex? p, parseLim? n with
+    | some p, some n => .clrl p n
+    | _, _ => .bad
+  | ["next", k] => match ofHex? k with | some k => .next k | none => .bad
+  | ["root"] => .root
+  | ["cput", c, k, v] => match ofHex? c, ofHex? k, ofHex? v with
+    | some c, some k, some v => .cput c k v
+    | _, _, _ => .bad
+  | ["cget", c, k] => match ofHex? c, ofHex? k with
+    | some c, some k => .cget c k
+    | _, _ => .bad
+  | ["chas", c, k] => match ofHex? c, ofHex? k with
+    | some c, some k => .chas c k
+    | _, _ => .bad
+  | ["cdel", c, k] => match ofHex? c, ofHex? k with
+    | some c, some k => .cdel c k
+    | _, _ => .bad
+  | ["cclr", c, p] => match ofHex? c, ofHex? p with
+    | some c, some p => .cclr c p
+    | _, _ => .bad
+  | ["cclrl", c, p, n] => match ofHex? c, ofHex? p, parseLim? n with
+    | some c, some p, some n => .cclrl c p n
+    | _, _, _ => .bad
+  | ["cnext", c, k] => match ofHex? c, ofHex? k with
+    | some c, some k => .cnext c k
+    | _, _ => .bad
+  | ["croot", c] => match ofHex? c with | some c => .croot c | none => .bad
+  | ["kill", c] => match ofHex? c with | some c => .kill c | none => .bad
+  | ["killl2", c, n] => match ofHex? c, parseLim? n with
+    | some c, some n => .killl2 c n
+    | _, _ => .bad
+  | ["killl", c, n] => match ofHex? c, parseLim? n with
+    | some c, some n => .killl3 c n
+    | _, _ => .bad
+  | ["start"] => .start
+  | ["commit"] => .commit
+  | ["rollback"] => .rollback
+  | ["snap"] => .snap x y sep
+  | _ => .bad
+
+def parseHostLine (line : String) : Option (List HOp) :=
+  match line.splitOn "|" with
+  | [hdr, body] =>
+    let go (y : UInt8) (sep : Bool) := some ((body.splitOn ";").map (parseHOp 0x61 y sep))
+    if hdr == "h0" then go 0x71 false
+    else if hdr == "h1" then go 0x62 false
+    else if hdr == "h2" then go 0x71 true
+    else if hdr == "h3" then go 0x62 true
+    else none
+  | _ => none
+
+def showHOut : HOut → String
+  | .void => "void"
+  | .panic => "panic"
+  | .u32 n => "u32:" ++ toString n
+  | .bytes b => hex b
+  | .ptr0 => "ptr0"
+  | .readRes r b => hex r ++ "," ++ hex b
+  | .snap o => showOut o
+  | .bad => "bad-op"
+
+def hostStepLine (line : String) : String :=
+  match parseHostLine line with
+  | none => "bad-op"
+  | some hops =>
+    let m := joinS ";" ((hostRun (tsMach bM memDumper Diff.sortedOrder)
+      { base := Mem.empty, txs := [] } hops).2.map showHOut)
+    let s := joinS ";" ((hostRun (specMach Hc Hc) { back := Logical.empty, stack := [] } hops).2.map showHOut)
+    if m == s then m
+    else
+      let hdr := String.ofList (((line.splitOn "|").headD "").toList.drop 1)
+      let shadow := hops.map (fun h => h.op.getD Op.const)
+      let tag := findTag hdr
+        { m := { base := Mem.empty, txs := [] }, i := { base := Logical.empty, txs := [] },
+          s := { back := Logical.empty, stack := [] }, mainStrs := [], kidStrs := [] } shadow
+      m ++ "\tspec=" ++ s ++ (if tag.isEmpty then "" else "\tkf=" ++ tag)
+
 def step (line : String) : String :=
+  if line.startsWith "h" then hostStepLine line else
   -- block execution / initialisation run inside a transaction (source check of instance.go)
   if line == "ast ExecuteBlock" || line == "ast InitializeBlock" then "start<exec" else
   match parseLine line with
